@@ -31,10 +31,10 @@ func (i fileInfo) Mode() fs.FileMode {
 	}
 	return 0o644
 }
-func (i fileInfo) ModTime() time.Time  { return time.Unix(1700000000, 0) }
-func (i fileInfo) IsDir() bool         { return i.dir }
-func (i fileInfo) Sys() any            { return nil }
-func (i fileInfo) Type() fs.FileMode   { return i.Mode().Type() }
+func (i fileInfo) ModTime() time.Time         { return time.Unix(1700000000, 0) }
+func (i fileInfo) IsDir() bool                { return i.dir }
+func (i fileInfo) Sys() any                   { return nil }
+func (i fileInfo) Type() fs.FileMode          { return i.Mode().Type() }
 func (i fileInfo) Info() (fs.FileInfo, error) { return i, nil }
 
 // VAbs resolves p against the virtual working directory, lexically.
